@@ -197,6 +197,7 @@ func runOnce(c drv.Case) (lib.Result, bool) {
 	var outs []stepOut
 	spansWithEvents, eventsOutside := 0, false
 	inSpan, spanEvents := false, false
+ops:
 	for _, o := range c.Ops {
 		switch o.Op {
 		case "WC", "LABEL":
@@ -206,6 +207,16 @@ func runOnce(c drv.Case) (lib.Result, bool) {
 				ob = s.WC(o)
 			} else {
 				ob = s.Label(o)
+			}
+			if ob.Hung {
+				if o.Op == "WC" {
+					terms = append(terms, fmt.Sprintf("WqX %s %d %s %s %s", drv.StrTerm(o.Req), o.Path, lib.B(o.L22), lib.B(o.L3), lib.B(o.OFF)))
+				} else {
+					terms = append(terms, fmt.Sprintf("LqX %s", drv.StrTerm(o.Label)))
+				}
+				outs = append(outs, stepOut{Op: o.Op, Err: "request never answered"})
+				tags["request-never-answered"] = true
+				break ops
 			}
 			var files *drv.SideFiles
 			if before.Pattern != "" && strings.Count(before.Pattern, "%s") == 2 && !ob.Rep.Active {
